@@ -111,6 +111,49 @@ ENTRY(z_mgr_zdt) {
   zdtRoundTrip(tz, other, t);
 }
 
+// C05, "compareTo orders values by instant" inside ONE database zone: two instants t < t + d around a backward offset change
+// (wall-clock order and instant order disagree there).  a0 zone, t in [a1,a2), d in [1,a3].
+static void zdtOrder(const TimeZone& tz, const TimeZone& same, int32_t t, int32_t d) {
+  ZonedDateTime z1 = ZonedDateTime::forEpochSeconds(t, tz);
+  ZonedDateTime z2 = ZonedDateTime::forEpochSeconds(t + d, same);
+  __verif_observe("off1", z1.timeOffset().toMinutes());
+  __verif_observe("off2", z2.timeOffset().toMinutes());
+  __verif_assert(!z1.isError() & !z2.isError(), "zoned not-error");
+  int8_t c12 = z1.compareTo(z2);
+  int8_t c21 = z2.compareTo(z1);
+  __verif_observe("c12", c12);
+  __verif_assert((c12 < 0) & (c21 > 0), "ZonedDateTime::compareTo orders two values of the same zone by instant");
+}
+
+ENTRY(z_ext_order) {
+  ExtendedZoneProcessor proc;
+  TimeZone tz = TimeZone::forZoneInfo(zonedbx::kZoneRegistry[a0], &proc);
+  int32_t t = __verif_nondet_i32("t");
+  int32_t d = __verif_nondet_i32("d");
+  __verif_assume(t >= (int32_t) a1 && t < (int32_t) a2 && d >= 1 && d <= (int32_t) a3);
+  zdtOrder(tz, tz, t, d);
+}
+
+ENTRY(z_bas_order) {
+  BasicZoneProcessor bproc;
+  TimeZone tz = TimeZone::forZoneInfo(zonedb::kZoneRegistry[a0], &bproc);
+  int32_t t = __verif_nondet_i32("t");
+  int32_t d = __verif_nondet_i32("d");
+  __verif_assume(t >= (int32_t) a1 && t < (int32_t) a2 && d >= 1 && d <= (int32_t) a3);
+  zdtOrder(tz, tz, t, d);
+}
+
+// two TimeZone objects created by one manager for the same zone (they share the cached processor)
+ENTRY(z_mgr_order) {
+  ExtendedZoneManager<1> mgr(zonedbx::kZoneRegistrySize, zonedbx::kZoneRegistry);
+  TimeZone tz = mgr.createForZoneIndex((uint16_t) a0);
+  TimeZone same = mgr.createForZoneIndex((uint16_t) a0);
+  int32_t t = __verif_nondet_i32("t");
+  int32_t d = __verif_nondet_i32("d");
+  __verif_assume(t >= (int32_t) a1 && t < (int32_t) a2 && d >= 1 && d <= (int32_t) a3);
+  zdtOrder(tz, same, t, d);
+}
+
 // C09: transition buffer bound of the extended processor for zone a0, instant t in [a1,a2)
 ENTRY(z_ext_highwater) {
   ExtendedZoneProcessor proc;
